@@ -230,7 +230,9 @@ async fn purge_topic(
 ) -> Result<StatusCode, CustomError> {
     let identifier_stream_id = Identifier::from_str_value(&stream_id)?;
     let identifier_topic_id = Identifier::from_str_value(&topic_id)?;
-    let system = state.system.read().await;
+    // The exclusive lock: with the shared one this command could be journalled before the (still unjournalled) creation
+    // of the entity it purges, which the replay of the state cannot apply.
+    let system = state.system.write().await;
     system
         .purge_topic(
             &Session::stateless(identity.user_id, identity.ip_address),
